@@ -1,5 +1,7 @@
 use crate::utils::{Arr2D, Arr2DError};
 
+const MAX_ITERATIONS: usize = 100_000;
+
 pub fn power_method<M>(matrix: M, es: f64) -> Result<(f64, Arr2D<f64>), Arr2DError>
 where
     M: TryInto<Arr2D<f64>, Error = Arr2DError>,
@@ -13,7 +15,8 @@ where
     // Arr2D.max() only returns None if the matrix is empty
     let mut eigenvalue = eigenvector.max().unwrap(); // Matrix won't be empty here
     eigenvector = eigenvector / eigenvalue; // Normalised Eigenvector
-    loop {
+    // The stopping rule alone does not bound the loop (zero, nilpotent or rotation-like input)
+    for _ in 0..MAX_ITERATIONS {
         eigenvector = &matrix * eigenvector;
         let normalisation_value = eigenvector.max().unwrap(); // Matrix also won't be empty here
         let normalised_eigenvector = &eigenvector / normalisation_value;
@@ -28,10 +31,10 @@ where
         eigenvalue = next_eigenvalue;
         eigenvector = normalised_eigenvector;
         if ea < es {
-            break;
+            return Ok((eigenvalue, eigenvector));
         }
     }
-    Ok((eigenvalue, eigenvector))
+    Err(Arr2DError::NoConvergence)
 }
 
 #[cfg(test)]
